@@ -235,4 +235,62 @@ theorem borrow_time_budget (timeout : Int) (es : List Int) : remainAfter timeout
   | nil => simp [remainAfter]
   | cons e es ih => simp only [remainAfter, waitResult, ih, List.sum_cons]; omega
 
+/-! ## the edges of the quantifier: capacity 0, a panicking `create` callback -/
+
+/-- **n = 0** (outside "for all capacities n ≥ 1", but the models do not need the bound): with capacity 0 nobody is
+ever inside the guarded region of any site, a `TryBorrow` / `ScheduleImmediately` / request is refused, a blocking
+acquire blocks, `Return` reports `ErrLimitReturn` — "requests beyond the cap are refused or blocked, never admitted"
+with every request beyond the cap.  (`NewPool(0)` panics, `WithWorkers(0)` is floored to 1, `MaxConnsHandler(0)` is
+no limiter at all: `tie_pool_conds`, `effWorkers_spec`, `engineCap_spec`.) -/
+theorem zero_capacity_admits_nothing :
+    (∀ name p, (name, p) ∈ Programs.all → ∀ s, Reach p 0 s → ∀ t, inCrit p s t = false)
+    ∧ (Sem.init 0).step .tryBorrow = (Sem.init 0, .refused)
+    ∧ (Sem.init 0).step .borrow = (Sem.init 0, .blocked)
+    ∧ (Sem.init 0).step .ret = (Sem.init 0, .errReturn) := by
+  refine ⟨?_, rfl, rfl, rfl⟩
+  intro name p hx s h t
+  cases hc : inCrit p s t
+  · rfl
+  · have := sites_cap name p hx 0 s h [t] (by simp) (by simpa using hc)
+    simp at this
+
+/-- `k` consecutive `Get` calls whose `create` callback panics. -/
+def createPanicsTimes : Nat → Pool → Pool
+  | 0, p => p
+  | k + 1, p => createPanicsTimes k (p.getCreatePanics 0).1
+
+theorem createPanics_once (limit maxAge next : Nat) (c : Nat) (h : c < limit) :
+    (({ limit := limit, maxAge := maxAge, created := (c : Int), idle := [], next := next } : Pool).getCreatePanics 0).1
+      = { limit := limit, maxAge := maxAge, created := ((c + 1 : Nat) : Int), idle := [], next := next } := by
+  have hc : ((c : Int) < (limit : Int)) := by omega
+  simp [Pool.getCreatePanics, Pool.get, getLoop, hc]
+
+theorem createPanics_many (limit maxAge next : Nat) (k c : Nat) (h : c + k ≤ limit) :
+    createPanicsTimes k { limit := limit, maxAge := maxAge, created := (c : Int), idle := [], next := next }
+      = { limit := limit, maxAge := maxAge, created := ((c + k : Nat) : Int), idle := [], next := next } := by
+  induction k generalizing c with
+  | zero => rfl
+  | succ k ih =>
+    simp only [createPanicsTimes]
+    rw [createPanics_once limit maxAge next c (by omega), ih (c + 1) (by omega)]
+    congr 2
+    omega
+
+/-- **A panicking `create` callback (decision: OUTSIDE the property's quantifier — "panics inside holders": the
+caller never became a holder — but modelled as the code is).**  `Pool.Get` has run `p.created++` before it calls
+`create`; a panic leaves through the deferred `Unlock` and nothing takes the increment back.  Consequence, for every
+limit: after `limit` such calls on a fresh pool the counter is at the limit with NO resource alive, and the next `Get`
+waits for ever although nothing is in use.  Whoever wants the property to cover this case needs a deferred decrement
+on the create path (robustness proposal, not claimed as a defect). -/
+theorem pool_create_panics_exhaust (limit maxAge : Nat) :
+    (createPanicsTimes limit (Pool.init limit maxAge)).created = limit
+    ∧ (createPanicsTimes limit (Pool.init limit maxAge)).idle = []
+    ∧ ((createPanicsTimes limit (Pool.init limit maxAge)).get 0).2 = .wait [] := by
+  have h := createPanics_many limit maxAge 0 limit 0 (by omega)
+  simp only [Nat.zero_add] at h
+  have h0 : (Pool.init limit maxAge) = { limit := limit, maxAge := maxAge, created := ((0 : Nat) : Int), idle := [], next := 0 } := rfl
+  rw [h0, h]
+  refine ⟨rfl, rfl, ?_⟩
+  simp [Pool.get, getLoop]
+
 end GoZero.C05
